@@ -515,3 +515,31 @@ def system_budget(w, repo):
     if rc == 126:
         return True, "%d one-byte arguments: xargs exit %d (%s)" % (n, rc, err.decode(errors='replace').strip()[:80])
     return False, "300000 one-byte arguments accepted (rc=%d)" % rc
+
+
+# ------------------------------------------------------------------------------------------ C01/C11: MIR-level witnesses (exact)
+def parser_tokens(w, repo):
+    """run the real find on the witness expression over a single regular file and compare with the grammar's reference evaluation"""
+    import sys
+    sys.path.insert(0, os.path.join(os.path.dirname(os.path.dirname(os.path.abspath(__file__))), "mirsym"))
+    from reference import reference
+    if not build(repo):
+        return None, "build failed"
+    toks, env = w["tokens"], w.get("leaves", {})
+    if "-readable" in toks and not env.get("t_readable", True) and os.geteuid() == 0:
+        return None, "-readable false cannot be materialised as root"
+    with Sandbox() as d:
+        p = os.path.join(d, "f")
+        with open(p, "w") as f:
+            if not env.get("t_empty", True):
+                f.write("x")
+        rc, out, err = run([find_bin(repo), "f"] + toks, cwd=d)
+        want = reference(toks, {"t_empty": env.get("t_empty", True), "t_readable": True})
+        if want["accept"]:
+            exp = b"".join(b"f\n" if e == "print\\n" else b"f\0" for e in want["trace"])
+            ok = rc == 0 and out == exp
+            detail = "find f %s: rc=%d stdout=%r, reference: accepted, stdout=%r" % (" ".join(toks), rc, out, exp)
+        else:
+            ok = rc != 0 and out == b""
+            detail = "find f %s: rc=%d stdout=%r, reference: rejected (%s)" % (" ".join(toks), rc, out, want["why"])
+        return (not ok), detail
